@@ -87,7 +87,9 @@ theorem syncE2_spec {x : Pair} (hc : Coupled2 x) (now na : Int) (fresh : List Ke
     (hpend : x.child.ca.hasPendingRequests x.ph = false)
     (hlen : x.newClasses na ≤ fresh.length) (hfresh : FreshOk x fresh) :
     PostE2 (x.sync now na fresh) now na ∧ (x.sync now na fresh).parent = x.parent ∧
-    (x.sync now na fresh).ch = x.ch ∧ (x.sync now na fresh).ph = x.ph := by
+    (x.sync now na fresh).ch = x.ch ∧ (x.sync now na fresh).ph = x.ph ∧
+    (∀ r rc', get (x.sync now na fresh).child.ca.classes r = some rc' → rc'.parent ≠ x.ph →
+      get x.child.ca.classes r = some rc') := by
   have hndP := (reachable_inv hc.inv.base.rp).core.nodup
   have hndC := (reachable_inv hc.inv.base.rc).core.nodup
   have hfr := (reachable_inv hc.inv.base.rc).core.fresh
@@ -97,7 +99,13 @@ theorem syncE2_spec {x : Pair} (hc : Coupled2 x) (now na : Int) (fresh : List Ke
     unfold Pair.sync
     simp only [hpend, Bool.false_eq_true, if_false, hn]
   rw [hy]
-  refine ⟨?_, rfl, rfl, rfl⟩
+  refine ⟨?_, rfl, rfl, rfl, ?_⟩
+  rotate_left
+  · intro r rc' hg hp
+    rcases h5 r rc' hg with ⟨rc, hgx, _, heq⟩ | ⟨rc, ent, _, hpp, _, _, heq⟩ | ⟨ent, k, _, _, _, _, heq⟩
+    · rw [heq]; exact hgx
+    · rw [heq] at hp; exact absurd hpp hp
+    · rw [heq] at hp; exact absurd rfl hp
   have hquiet := (hasPendingRequests_false_iff hndC x.ph).mp hpend
   -- the classes under the parent after the command
   have hcls : ∀ r rc', get s'.ca.classes r = some rc' → rc'.parent = x.ph →
